@@ -1,13 +1,13 @@
 import SleapVerif.Model.Pipelines
 import Mathlib.Algebra.Order.Field.Basic
 import Mathlib.Tactic.Ring
+import Mathlib.Tactic.NormNum
+import Mathlib.Algebra.Order.Ring.Rat
 
 /-!
 # Helper lemmas for C18 (`Model/Pipelines.lean`)
 
 * `erase` / `quants` / `shape` through the smart constructors;
-* `generateCrops`: the image field is `crop cen h w img`, the coordinate fields do not depend on
-  the image;
 * `process_lf`: the first `num_instances` rows are the non-empty instances;
 * `generate_centroids` commutes with a positive rescaling of the keypoints.
 -/
@@ -60,24 +60,6 @@ theorem shape_erase (N : Num R) (raw : Nat × Nat × Nat) (i : Img R) :
   | padStride m i ih => simp [Img.erase, shape, ih]
   | crop c h w i ih => simp [Img.erase, shape, ih]
   | quant8 i ih => simpa [Img.erase, shape] using ih
-
-/-! ## crops -/
-
-@[simp] theorem generateCrops_img (N : Num R) (img : Img R) (inst : Inst R) (cen : Pt R) (h w : Nat) :
-    (generateCrops N img inst cen h w).img = .crop cen h w img := by
-  cases cen <;> rfl
-
-theorem generateCrops_bbox (N : Num R) (img img' : Img R) (inst : Inst R) (cen : Pt R) (h w : Nat) :
-    (generateCrops N img inst cen h w).bbox = (generateCrops N img' inst cen h w).bbox := by
-  cases cen <;> rfl
-
-theorem generateCrops_inst (N : Num R) (img img' : Img R) (inst : Inst R) (cen : Pt R) (h w : Nat) :
-    (generateCrops N img inst cen h w).inst = (generateCrops N img' inst cen h w).inst := by
-  cases cen <;> rfl
-
-theorem generateCrops_cen (N : Num R) (img img' : Img R) (inst : Inst R) (cen : Pt R) (h w : Nat) :
-    (generateCrops N img inst cen h w).cen = (generateCrops N img' inst cen h w).cen := by
-  cases cen <;> rfl
 
 /-! ## `process_lf` -/
 
